@@ -506,3 +506,59 @@ func (r *Run) errorsAs(g *Goroutine, err, target IfaceV) Value {
 	}
 	panic(engineErr("errors.As: chain too long"))
 }
+
+// prefixIntrinsic models whole method families: the logrus logger (installed
+// as go-perun's default logger by the client package's init). Panic* panics,
+// Fatal* exits, With* returns an entry, everything else logs nothing.
+func prefixIntrinsic(e *Engine, fn *ssa.Function) intrinsicFn {
+	name := fn.String()
+	const ent, lg = "(*github.com/sirupsen/logrus.Entry).", "(*github.com/sirupsen/logrus.Logger)."
+	var meth string
+	isLogger := false
+	switch {
+	case strings.HasPrefix(name, ent):
+		meth = name[len(ent):]
+	case strings.HasPrefix(name, lg):
+		meth = name[len(lg):]
+		isLogger = true
+	default:
+		return nil
+	}
+	switch {
+	case strings.HasPrefix(meth, "Panic"):
+		return func(r *Run, g *Goroutine, fv *FuncV, a []Value, retTo func(Value)) (Value, bool) {
+			msg := "logrus " + meth
+			if len(a) > 1 {
+				if s, ok := a[1].(*StrV); ok {
+					if c, ok := r.strConcrete(s); ok {
+						msg = c
+					}
+				}
+			}
+			panic(goPanic{kind: "explicit", msg: msg})
+		}
+	case strings.HasPrefix(meth, "Fatal") || meth == "Exit":
+		return func(r *Run, g *Goroutine, fv *FuncV, a []Value, retTo func(Value)) (Value, bool) {
+			panic(goPanic{kind: "exit", msg: "logrus " + meth + ": process exits"})
+		}
+	case strings.HasPrefix(meth, "With"):
+		return func(r *Run, g *Goroutine, fv *FuncV, a []Value, retTo func(Value)) (Value, bool) {
+			if !isLogger {
+				return a[0], true
+			}
+			et := r.eng.pkgs["github.com/sirupsen/logrus"].Type("Entry").Type()
+			v := r.zero(et).(*StructV)
+			v.f[r.fieldByName(et, "Logger")] = a[0]
+			return PtrV{obj: r.newObject(et, v)}, true
+		}
+	case meth == "SetLevel" || meth == "SetFormatter" || meth == "SetOutput" || meth == "GetLevel" || meth == "level":
+		return nil // plain field accessors: interpreted
+	}
+	return func(r *Run, g *Goroutine, fv *FuncV, a []Value, retTo func(Value)) (Value, bool) {
+		res := fn.Signature.Results()
+		if res.Len() == 0 {
+			return nil, true
+		}
+		return r.zero(res.At(0).Type()), true
+	}
+}
